@@ -2,6 +2,7 @@
    requests:
      (wplay c0 (b ...) (((idbyte ...) step) ...) (item ...))   byte-level: item = (l step) (chunk (b ...)) (eof) (collect) (cleanall)
      (play c0 (b ...) (step ...))    is_open before connect, closers flags, script            -> (ok (taken ...) (hist ...) (calls ...) (pending ...) ...)
+     (kloop (b ...))              callers pending at a connection loss, 1 = on the klong loop -> (ok (deadlock b))
      (srv (o ...))                o = val unpicklable fn klong keyerror ordinary stopiter base   -> (ok (served ...) (indomain ...))
          step = (connect ok) (invoke k) (reg k) (sched k) (send k) (complete k) (resp k ok) (push ok) (closereq) (cut) (reset)
                 (clean) (cleanall) (collect)
@@ -11,7 +12,7 @@
 From Coq Require Import ZArith List String Bool PeanoNat.
 From KB Require Import Sx.
 From C13 Require Model.
-From C14 Require Import Generated Model ServerModel Wire Spec.
+From C14 Require Import Generated Model ServerModel Wire KlongLoop Spec.
 Import ListNotations.
 
 Definition gen_flags : flags := mkFlags cleanup_iterates_snapshot finally_clears_writer.
@@ -231,10 +232,23 @@ Definition sx_served (s : served) : sx :=
   | SvClosed => sx_w "closed" | SvNothing => sx_w "nothing" | SvStuck => sx_w "stuck"
   end.
 
+Definition gen_kflags : kflags := mkKF (negb srv_callbacks_inline) run_fails_pending_before_callbacks.
+
+(* callers pending when the connection is lost (1 = on the klong loop, 0 = another thread): does everybody return? *)
+Definition kloop_after_loss (l : list Z) : sx :=
+  let s0 := mkKS (map (fun z => mkK (z2b z) CWait) l) RListening in
+  match kstep gen_kflags s0 KLoss with
+  | Some s1 => let s2 := krun gen_kflags (4 * List.length l + 8) s1 in
+               SL [sx_w "ok"; SL [sx_w "deadlock"; sx_bool (negb (kfinal s2))]]
+  | None => sx_err "kloop"
+  end.
+
 Definition dispatch (x : sx) : sx :=
   match x with
   | SL [SS t; SL os] =>
-      if is_tag "srv" t then
+      if is_tag "kloop" t then
+        match sx_get_zs os with Some l => kloop_after_loss l | None => sx_err "kloop" end
+      else if is_tag "srv" t then
         match parse_outcomes os with
         | Some l => SL [sx_w "ok"; SL (sx_w "served" :: map sx_served (serve gen_sflags l));
                         SL (sx_w "indomain" :: map (fun o => sx_bool (in_domain o)) l)]
